@@ -292,6 +292,8 @@ func init() {
 				nd := pick(5, 6)
 				jobs = append(jobs, Job{Pkg: "handlers/dhcp4_spoofer", Func: "VerifC08DHCPPacket", Args: []int64{m, 0, nd}, SplitN: int(nd) + 1, Cfg: dc, Reach: []string{"processed"}})
 				jobs = append(jobs, Job{Pkg: "handlers/dhcp4_spoofer", Func: "VerifC08DHCPPacket", Args: []int64{m, 1, 6}, SplitN: 7, Cfg: dc, Reach: []string{"processed"}})
+				jobs = append(jobs, Job{Pkg: "handlers/dhcp4_spoofer", Func: "VerifC08DHCPOptionsTemplate", Args: []int64{m, 0}, Cfg: dc, Reach: []string{"processed"}})
+				jobs = append(jobs, Job{Pkg: "handlers/dhcp4_spoofer", Func: "VerifC08DHCPOptionsTemplate", Args: []int64{m, 1}, Cfg: dc, Reach: []string{"processed"}})
 			}
 			return jobs
 		},
@@ -307,7 +309,7 @@ func init() {
 				"decodeName":             "arbitrary buffers of length 0.." + s("6", "8") + " (one job per length), arbitrary offset, any capacity; pointer chains to the code's own recursion limit (255)",
 				"DNS question + answers": "three message templates (label / pointer question names, one or two answers, rdata with a nested label+pointer) in which " + s("each single field", "each single field and every pair of fields") + " among ANCount, label lengths, pointer targets, record type, RDLENGTH, first rdata byte is arbitrary, truncated at every offset",
 				"NDP options":            "arbitrary option bytes of length 0.." + s("16", "23"),
-				"DHCP handler":           "ProcessPacket (secondary mode; thorough: all three modes) on every frame the real Parse classifies as DHCPv4, client->server and server->client, with every BOOTP header field arbitrary and an options area of 0.." + s("5", "6") + " arbitrary bytes (server->client: 0..6)",
+				"DHCP handler":           "ProcessPacket (secondary mode; thorough: all three modes) on every frame the real Parse classifies as DHCPv4, client->server and server->client, with every BOOTP header field arbitrary and an options area of 0.." + s("5", "6") + " arbitrary bytes (server->client: 0..6); plus option templates: message-type option of length 0 / 1 / 2 followed by a server-identifier / requested-address / client-id / lease-time / parameter-list option of length 0 / 4 / 7 with arbitrary values, with and without end marker, both directions",
 				"ICMP handlers":          "ICMPv6 handler ProcessPacket (hunt list of 0..1 entries) on every frame accepted by the real Parse whose ICMPv6 message is 0.." + s("24", "32") + " arbitrary bytes (every type, code, body, option bytes); ICMPv4 handler likewise with 0.." + s("16", "32") + " bytes",
 				"hop-by-hop, LLDP TLVs":  "arbitrary bytes of length 0.." + s("14 / 12", "17 / 16"),
 				"DHCP options":           "240-byte header + 0.." + s("6", "8") + " arbitrary option bytes",
